@@ -438,6 +438,36 @@ def impl_requests(case):
     return ' | '.join(res)
 
 
+def oracle_held_request(case):
+    """callstacks() is lazy: an earlier request on the same PyKdebugParser may be unread, partly read and still referenced,
+    or closed when the next one is made.  The next request's callstacks must be those of ITS dump alone."""
+    from pykdebugparser.pykdebugparser import PyKdebugParser
+    p = PyKdebugParser()
+    a, b = case['reqs']
+    g1 = p.callstacks(io.BytesIO(v2_file(a, case['threads'])))
+    try:
+        if case['first'] == 'partial':
+            for _ in range(case['k']):
+                next(g1, None)
+        elif case['first'] == 'closed':
+            next(g1, None)
+            g1.close()
+        elif case['first'] == 'full':
+            list(g1)
+    except Exception:
+        pass
+    try:
+        ans = show_callstacks(list(p.callstacks(io.BytesIO(v2_file(b, case['threads'])))))
+    except Exception as e:
+        ans = 'err ' + core.err_name(e)
+    keep = g1                                          # the first request is still referenced while the second is read
+    r = compare(b, ans, what='second request on a parser whose first request is %s: ' % case['first'])
+    del keep
+    if r and r[0] in ('callstack:wrong-image', 'callstack:offset'):
+        return ('callstack:stale-images', r[1] + ' (images of the earlier, %s request)' % case['first'], case)
+    return (r[0], r[1], case) if r else None
+
+
 def oracle_stream(nodes, got):
     return compare(nodes, got)
 
@@ -629,6 +659,22 @@ def correspondence(rep, rng, tier):
                 rule='PyKdebugParser().callstacks(BytesIO(v2 file)) twice on one parser object (same dump twice / two '
                      'different dumps) and on two parser objects vs. the model run per request from empty lists; '
                      'non-trivial = both requests attribute frames')
+    core.run_code_section(rep, 'requests-held', held_cases(rng, 4000 if thorough else 300), oracle_held_request,
+                          kind_fn=lambda c: c['first'],
+                          rule='code-only section: a callstacks() request on ONE PyKdebugParser while an earlier request is unread / '
+                               'partly read and still referenced / closed / fully read: the callstacks of the second request are '
+                               'those of its own dump (images announced in its own stream only)')
+
+
+def held_cases(rng, n):
+    out = []
+    for i in range(n):
+        a = gen_announce_case(rng) if i % 2 == 0 else Gen(rng, rng.choice([2, 4])).scenario()
+        b = Gen(rng, rng.choice([2, 4])).scenario() if i % 3 else gen_announce_case(rng)
+        threads = [[t, rng.randrange(1, 500), 'p%d' % t] for t in rng.sample(TIDS_C + TIDS_A + TIDS_B, rng.randrange(0, 4))]
+        out.append({'reqs': [a, b], 'threads': threads, 'first': rng.choice(['unread', 'partial', 'partial', 'closed', 'full']),
+                    'k': rng.randrange(1, 4)})
+    return out
 
 
 def replay(path):
@@ -638,6 +684,14 @@ def replay(path):
         print(json.dumps(r, indent=1)[:4000])
         return 1
     sec, case = r['replay']['section'], r['replay']['case']
+    if sec == 'requests-held':
+        res = oracle_held_request(case)
+        print('first request %s, then a second request on the same PyKdebugParser' % case['first'])
+        print('oracle:', res[:2] if res else None)
+        if res:
+            print(f'VIOLATION property=C15 replay={path}')
+            return 1
+        return 0
     line_fn, impl_fn, oracle_fn = {'bisect': (line_bisect, impl_bisect, oracle_bisect),
                                    'callstacks-ir': (line_ir, impl_ir, oracle_ir),
                                    'streams': (line_stream, impl_stream, oracle_stream),
